@@ -217,7 +217,7 @@ pub fn generate_c18<W: Write>(c: &mut Cases<W>, rng: &mut Rng, thorough: bool) {
         let cfg = gen_cfg(rng, i % 2 == 0, false);
         let mut es = bounded_entries(rng, &cfg, 200, if cfg.unclamped { 5000 } else { 30000 });
         if es.len() >= 2 {
-            let kinds = rng.below(6);
+            let kinds = rng.below(8);
             let j = rng.below(es.len() as u64 - 1) as usize + 1;
             match kinds {
                 0 => { let k = es[j - 1].0.clone(); es[j].0 = k; }              // duplicate next to predecessor
@@ -225,6 +225,16 @@ pub fn generate_c18<W: Write>(c: &mut Cases<W>, rng: &mut Rng, thorough: bool) {
                 2 => { let k = es[0].0.clone(); es[j].0 = k; }                    // jump back to the first key
                 3 => { let e = es[rng.below(j as u64) as usize].clone(); es.insert(j, e); } // repeat an earlier entry
                 4 => { es[j].0 = Vec::new(); }                                    // empty key in the middle
+                5 | 6 => {
+                    // replay an earlier stretch of entries (whole blocks of lower keys after a cut)
+                    let m = rng.range(1, (j as u64).min(40)) as usize;
+                    let start = rng.below((j - m + 1) as u64) as usize;
+                    let stretch: Vec<_> = es[start..start + m].to_vec();
+                    let mut out = es[..j].to_vec();
+                    out.extend(stretch);
+                    out.extend_from_slice(&es[j..]);
+                    es = out;
+                }
                 _ => {}                                                           // sorted control
             }
             c.bump(&format!("c18.kind{}", kinds), 1);
